@@ -1,6 +1,7 @@
 package main
 
 import (
+	"path/filepath"
 	"fmt"
 	"os"
 	"regexp"
@@ -232,6 +233,10 @@ func (eng *Engine) Verify(fn *ssa.Function, spec *FuncSpec, tags map[string]bool
 	if spec != nil {
 		for _, c := range spec.Clauses {
 			if c.Kind == KAtCallSet && !e.clauseHit[c] {
+				// a ghost assignment whose call is gone: the clauses that rely on the assignment fail on their
+				// own, so this is noted, not fatal (a removed call must surface as a violation, not as BROKEN)
+				e.eng.assumes[fmt.Sprintf("note: ghost assignment at calls of %s in %s (%s:%d) found no such call", c.Callee, res.Func, filepath.Base(c.File), c.Line)] = true
+				continue
 				panic(fmt.Sprintf("%s:%d: call-site clause for %q never applied: no such call in %s (contract out of date?)", c.File, c.Line, c.Callee, res.Func))
 			}
 			if c.Kind == KAssertCall && !e.clauseHit[c] && e.wantClause(c) {
